@@ -25,13 +25,14 @@ func init() {
 			"(R11) in every deferred recover() handler of packages modules and api, each path on which recover() returned non-nil passes ModuleError.Report before the handler ends (no further condition may skip the report). " +
 			"(R12) prepareModules/startModules/stopModules never forget an error carried by a module's report: after report.err tested non-nil no literal 'return nil' is reachable, and a returned accumulator is overwritten inside the loop only by a report error tested non-nil. " +
 			"(R13) the repeat re-arm in the task's deferred clean-up is reachable on the path on which recover() returned non-nil (a panicked repeating task runs again). " +
+			"(R14) stop completion requires that no control function is running (= C01-R7): a stop routine that panics after the last worker returned is still waited for, so its panic error reaches Shutdown. " +
 			"NOT decided: panics in goroutines that user code spawns itself, process-level behaviour.",
 		Rules: []ruleFn{c06R1, c06R2, c06R3, c06R4, c06R5, c06R6,
 			lockRuleFor("C06-R7", 25, []string{"modules"}, []string{}, map[string]string{}),
 			repoErrRuleFor("C06-R8", 12, func(c *Ctx, fn *ssa.Function) bool { return short(fn.Pkg.Pkg.Path()) == "modules" }, map[string]string{"modules.(*Module).setFailure / modules.Module.RunWorker": "failure-status notification worker; its own panics are reported through the module error channel"}),
 			c06R9,
 			func(c *Ctx, r *Report) { reportNeverBlocksRule(c, r, "C06-R10") },
-			c06R11, c06R12, c06R13},
+			c06R11, c06R12, c06R13, func(c *Ctx, r *Report) { stopCompletionRule(c, r, "C06-R14") }},
 	})
 }
 
